@@ -101,7 +101,7 @@ func (p c05) hostileSession(c *fw.Ctx, uniq *int) []string {
 	r := c.Rng
 	fresh := func(pfx string) string { *uniq++; return fmt.Sprintf("%s%d", pfx, *uniq) }
 	var in []string
-	switch r.IntN(6) {
+	switch r.IntN(9) {
 	case 0: // many parameters
 		n := r.IntN(13)
 		ps := names("p", n)
@@ -211,6 +211,36 @@ func (p c05) hostileSession(c *fw.Ctx, uniq *int) []string {
 		in = append(in, "func "+fn+"(a, b) {inc = () => {a = a + 1; a}; x = inc() + inc(); b = b * 2; [a, b, x]}")
 		in = append(in, fn+"(1, 2)", fn+"(1, 2.5)", fn+"(\"s\", 3)")
 		in = append(in, "func "+fn+"r(n) {if n <= 0 {return 0}; n + "+fn+"r(n - 1)}", fn+"r(30)")
+	case 5, 6, 7: // every way a body can mention the name of an integer parameter or counted-loop variable
+		v := fresh("i")
+		uses := []string{"print(V)", "print(a[0:V])", "print(a[V:])", "print(a[V:3])", "print(s[0:V], s[V:], s[V])", "print(m.V)", "print(m[\"V\"])", "print({\"V\": V})", "print({V: V})",
+			"print([V, V + 1])", "print(eval(\"V + 1\"))", "V := \"s\"; print(V)", "V := V * 1.5; print(V)", "V := [V]; print(V)", "V := V + 1; print(V)", "print(-V, V << 2, V % 2, !(V == 1))",
+			"t = t + V", "h = () => V; print(h())", "V = V + 1; print(V)", "V++; print(V)", "--V; print(V)", "print(V++)", "if V == 1 {continue}", "x = V; x = x + 1; print(x, V)", "m[V] = V; print(m)",
+			"a[V] = V * 2; print(a)", "mm = {1: V}; print(mm)", "print(len(a) + V, first(a) * V)", "print(V == 1 && V < 2 || V > 5)", "w = [V]; w[0] = 7; print(w, V)", "print(sprintf(\"%d\", V))",
+			"print(if V > 0 {V} else {-V})", "print(mf.V(V))", "for q = V {print(q)}", "for q = V:3 {print(q)}", "print(a[V], a[-V])", "eval(\"t = t + V\")"}
+		setup := "a = [10, 20, 30, 40]; m = {\"V\": 5, \"k\": 1, 1: \"one\"}; mf = {\"V\": z => z * 3}; s = \"hello\"; t = 0"
+		var body []string
+		for k := 0; k < 1+r.IntN(4); k++ {
+			body = append(body, uses[r.IntN(len(uses))])
+		}
+		if r.IntN(3) > 0 {
+			if r.IntN(6) == 0 {
+				body = append(body, []string{"for V := 2 {print(V)}", "for V := 1:3 {t = t + V}"}[r.IntN(2)]) // last: nothing reads V after it
+			}
+			loop := []string{"for V = 3 {", "for V = 1:4 {", "for V = 0:2 {"}[r.IntN(3)] + strings.Join(body, "; ") + "}"
+			if strings.Contains(loop, "continue") && r.IntN(2) == 0 {
+				loop = strings.Replace(loop, "continue", "break", 1)
+			}
+			in = append(in, strings.ReplaceAll(setup, "V", v), strings.ReplaceAll(loop, "V", v), "[a, m, s, t]")
+		} else {
+			fn := fresh("f")
+			b := strings.ReplaceAll(strings.Join(body, "; "), "continue", "return 0")
+			in = append(in, strings.ReplaceAll(setup, "V", v), strings.ReplaceAll("func "+fn+"(V, w) {"+b+"; [V, w]}", "V", v))
+			for k := 0; k < 1+r.IntN(3); k++ {
+				in = append(in, fn+"("+[]string{"1", "2", "0", "3", "2.5", "\"s\""}[r.IntN(6)]+", "+[]string{"1", "7", "\"w\""}[r.IntN(3)]+")")
+			}
+			in = append(in, "[a, m, s, t]")
+		}
 	default: // loop variable used as index / in containers / shifted
 		v := fresh("i")
 		in = append(in, fmt.Sprintf("a = [10, 20, 30]; m = {}; for %s = 3 {m[%s] = a[%s] << %s; a = a + %s}; [a, m]", v, v, v, v, v))
